@@ -131,8 +131,8 @@ def configured(cfg):
             st.enter_context(settings.min_preconditioning_size(cfg["mp"]))
         if "memeff" in cfg:
             st.enter_context(settings.memory_efficient(cfg["memeff"]))
-        if "ldt" in cfg:
-            st.enter_context(settings.linalg_dtypes(default=cfg["ldt"]))
+        if "lds" in cfg or "ldc" in cfg:
+            st.enter_context(settings.linalg_dtypes(default=F64, symeig=cfg.get("lds", F64), cholesky=cfg.get("ldc", F64)))
         yield
 
 
@@ -210,6 +210,57 @@ def build_instances(rng, dtype, batch, n):
     K1, K2, K3 = C.psd_int(rng, batch, 2, dtype), C.psd_int(rng, batch, n, dtype), C.psd_int(rng, batch, 2, dtype)
     out.append(X("Kronecker[3]", lambda: KroneckerProductLinearOperator(cl(K1), cl(K2), cl(K3)), C.kron(C.kron(K1, K2), K3),
                  f"kron3 gen 2 gen {n} gen 2"))
+    from linear_operator.operators import (IdentityLinearOperator, RootLinearOperator, ToeplitzLinearOperator)
+
+    def factor(kind, a):
+        """(make() -> factor operator / tensor, dense, Lean descriptor) of a PD factor of size a."""
+        if kind == "Dense":
+            M = C.psd_int(rng, batch, a, dtype)
+            return (lambda: cl(M)), M, f"gen {a}"
+        if kind == "Identity":
+            return (lambda: IdentityLinearOperator(a, batch_shape=torch.Size(batch), dtype=dtype)), eye(a).expand(*batch, a, a).clone(), f"id {a}"
+        if kind == "ConstantDiag":
+            c = ri(rng, (*batch, 1), 2, 4, dtype)
+            return (lambda: ConstantDiagLinearOperator(cl(c), diag_shape=a)), c.unsqueeze(-1) * eye(a), f"diag {a}"
+        if kind == "Diag":
+            dv = ri(rng, (*batch, a), 1, 4, dtype)
+            return (lambda: DiagLinearOperator(cl(dv))), torch.diag_embed(dv), f"diag {a}"
+        if kind == "Toeplitz":
+            col = ri(rng, (*batch, a), 0, 2, dtype)
+            col[..., 0] = col[..., 0] + 2 * a
+            return (lambda: ToeplitzLinearOperator(cl(col))), C.toeplitz_dense(col), f"gen {a}"
+        if kind in ("Chol[lower]", "Chol[upper]", "Root"):
+            Lt = torch.tril(ri(rng, (*batch, a, a), -2, 2, dtype)) * (1 - eye(a)) + torch.diag_embed(ri(rng, (*batch, a), 1, 2, dtype))
+            if kind == "Chol[lower]":
+                return (lambda: CholLinearOperator(TriangularLinearOperator(cl(Lt)))), Lt @ Lt.mT, f"chol {a}"
+            if kind == "Chol[upper]":
+                return (lambda: CholLinearOperator(TriangularLinearOperator(cl(Lt.mT), upper=True), upper=True)), Lt @ Lt.mT, f"chol {a}"
+            return (lambda: RootLinearOperator(cl(Lt))), Lt @ Lt.mT, f"gen {a}"
+        if kind == "BlockDiag":
+            Bl_ = C.psd_int(rng, (*batch, 2), a // 2, dtype)
+            return (lambda: BlockDiagLinearOperator(DenseLinearOperator(cl(Bl_)))), C.block_diag_dense(Bl_), f"block 2 gen {a // 2}"
+        raise ValueError(kind)
+
+    def kron_inst(name, parts):
+        makes, denses, descs = zip(*parts)
+        dn = denses[0]
+        for d_ in denses[1:]:
+            dn = C.kron(dn, d_)
+        desc = ("kron " if len(parts) == 2 else "kron3 ") + " ".join(descs)
+        out.append(X(name, lambda: KroneckerProductLinearOperator(*[m() for m in makes]), dn, desc, tags=("kronfactor",)))
+
+    for kind in ("Identity", "ConstantDiag", "Diag", "Toeplitz", "Chol[lower]", "Chol[upper]", "Root", "BlockDiag"):
+        a, b = (4, 3) if kind == "BlockDiag" else (2, 3)
+        kron_inst(f"Kronecker({kind}{a},Dense{b})", [factor(kind, a), factor("Dense", b)])
+        kron_inst(f"Kronecker(Dense{b},{kind}{a})", [factor("Dense", b), factor(kind, a)])
+    for kind in ("Identity", "ConstantDiag", "Diag", "Chol[upper]"):
+        for pos in range(3):
+            sizes = [2, 3, 4]
+            parts = [factor(kind if k == pos else "Dense", sizes[k]) for k in range(3)]
+            nm = ",".join((kind if k == pos else "Dense") + str(sizes[k]) for k in range(3))
+            kron_inst(f"Kronecker({nm})", parts)
+    kron_inst("Kronecker(Identity2,Diag3)", [factor("Identity", 2), factor("Diag", 3)])
+    kron_inst("Kronecker(Toeplitz3,Identity2)", [factor("Toeplitz", 3), factor("Identity", 2)])
     Lk = torch.tril(ri(rng, (*batch, 2, 2), 1, 2, dtype))
     out.append(X("Kronecker(Chol,Dense)", lambda: KroneckerProductLinearOperator(CholLinearOperator(TriangularLinearOperator(cl(Lk))), cl(K2)),
                  C.kron(Lk @ Lk.mT, K2), f"kron chol 2 gen {n}"))
@@ -379,13 +430,23 @@ def one_case(chk, st, x, dtype, batch, cfgname, cfg, kind, left, via, cell):
     chk.count("cfg/" + cfgname)
     chk.count("rhs/" + kind + ("+left" if left else ""))
     chk.count("via/" + via)
-    err_cls, got, evs = None, None, []
+    err_cls, got, evs, eigh_dtypes = None, None, [], []
+    real_eigh = torch.linalg.eigh
+
+    def spy_eigh(a, *args, **kw):
+        eigh_dtypes.append(a.dtype)
+        return real_eigh(a, *args, **kw)
+
     with capture() as cap, configured(cfg):
+        if "lds" in cfg or "ldc" in cfg:
+            torch.linalg.eigh = spy_eigh
         try:
             op = x.build()
             got = call_via(op, via, B, Lf)
         except Exception as e:  # noqa
             err_cls = f"{type(e).__name__}: {str(e)[:160]}"
+        finally:
+            torch.linalg.eigh = real_eigh
         evs = parse_events(cap.msgs)
     chk.case(desc, nontrivial=N > 1)
     for e in evs:
@@ -425,8 +486,13 @@ def one_case(chk, st, x, dtype, batch, cfgname, cfg, kind, left, via, cell):
     if got.dtype != dtype and via != "inverse.to_dense":
         chk.violation(cell + "/dtype", f"result dtype {got.dtype} != {dtype}", payload)
         return
-    f32 = dtype == F32 or cfg.get("ldt") == F32
     kinds = {e.split(":")[0] for e in evs}
+    # expected precision: the data dtype, except that eigen-structured paths (symeig ran) work in settings._linalg_dtype_symeig;
+    # nothing on a solve path is documented to read the Cholesky linalg dtype (generated table `linalgDtypeReads`)
+    f32 = dtype == F32 or ("symeig" in kinds and cfg.get("lds", F64) == F32)
+    if eigh_dtypes and "lanczos" not in kinds and any(str(d_) != str(cfg.get("lds", F64)) for d_ in eigh_dtypes):
+        chk.corr_break(cell + "/eigh-dtype", f"torch.linalg.eigh ran in {sorted(set(map(str, eigh_dtypes)))} but settings._linalg_dtype_symeig is "
+                                             f"{cfg.get('lds', F64)} (cfg={cfg_str(cfg)})", payload)
     scale = max(1.0, float(want.abs().max()))
     err = float((got.double() - want).abs().max()) / scale
     if "lanczos" in kinds:
@@ -450,8 +516,12 @@ def one_case(chk, st, x, dtype, batch, cfgname, cfg, kind, left, via, cell):
         tol = rb * float(Ainv.norm()) * float(B.double().norm()) * (float(Lf.double().norm()) if Lf is not None else 1.0) \
             * (2 * float(B.double().norm()) if via.startswith("inv_quad") else 1.0) / scale + (1e-3 if f32 else 1e-8)
     else:
-        tol, meth = (2e-3 if f32 else 1e-8), "direct"
+        # working precision: kappa <= ~1e3 for the catalogue (observed <= 1e-14), kappa ~ 1e5 for the singular-factor instances (observed <= 5e-12)
+        tol, meth = (2e-3 if f32 else (1e-9 if "singular" in x.tags else 1e-11)), "direct"
     chk.count("method/" + meth)
+    if meth == "direct" and not f32:
+        key = "max_direct_err_f64[singular]" if "singular" in x.tags else "max_direct_err_f64"
+        chk.extra[key] = max(chk.extra.get(key, 0.0), err)
     if not (err <= tol):
         chk.violation(cell + "/value", f"{x.name}.{via}: max rel error {err:.3e} > {tol:.1e} ({meth}; events {evs}; cfg={cfg_str(cfg)}; "
                                        f"B shape {tuple(B.shape)}, left={left})", payload)
@@ -459,6 +529,9 @@ def one_case(chk, st, x, dtype, batch, cfgname, cfg, kind, left, via, cell):
 
 GENERIC_INVQUAD = {"Chol[lower].inverse()", "Chol[upper].inverse()", "Dense[psd]", "Toeplitz", "PsdSum", "Sum[toeplitz+diag]", "ConstantMul", "SumBatch", "Sum(Kronecker,Diag)",
                    "ConstantMul(Kronecker)", "SumBatch(Kronecker)", "AddedDiag", "AddedDiag(Toeplitz,ConstantDiag)"}
+
+
+KRONFACTOR_CFGS = {"default", "mc0|tol1e-6", "mc0|fastoff", "mc=n-1|tol1e-6", "mc=3|tol1e-6"}
 
 
 def cfg_str(cfg):
@@ -608,9 +681,17 @@ def configs_for(N, quick):
         (f"mc=n-1|tol1e-6", {"mc": N - 1, "tol": 1e-6, "maxit": 200}),
         ("default|memeff", {"memeff": True}),
         ("mc0|tol1e-6|memeff", {"mc": 0, "tol": 1e-6, "maxit": 200, "memeff": True}),
-        ("mc0|tol1e-6|ldt32", {"mc": 0, "tol": 1e-6, "maxit": 200, "ldt": F32}),
-        ("default|ldt32", {"ldt": F32}),
     ]
+    # the full 2x2 of (symeig dtype, cholesky dtype), on the structured path (mc0), with factors below / product above the
+    # threshold (mc=3) and on the default path
+    for sn, sd in (("s32", F32), ("s64", F64)):
+        for cn, cd in (("c32", F32), ("c64", F64)):
+            if sd == F64 and cd == F64:
+                continue  # = the default, present in every other configuration
+            base.append((f"mc0|tol1e-6|ldt={sn}{cn}", {"mc": 0, "tol": 1e-6, "maxit": 200, "lds": sd, "ldc": cd}))
+            base.append((f"default|ldt={sn}{cn}", {"lds": sd, "ldc": cd}))
+            if N > 3:
+                base.append((f"mc=3|tol1e-6|ldt={sn}{cn}", {"mc": 3, "tol": 1e-6, "maxit": 200, "lds": sd, "ldc": cd}))
     if N > 3:
         base.append(("mc=3|tol1e-6", {"mc": 3, "tol": 1e-6, "maxit": 200}))  # factors below, product above the threshold
     return base
@@ -627,7 +708,7 @@ def run(chk, only=None):
                 "inverse, solve_triangular, second call); values from a per-cell RNG; non-trivial = operator larger than 1x1. "
                 "spec = exact rational inverse (Fractions) of the independent dense matrix")
     chk.assumptions += [
-        "floating point is not modelled: direct paths are compared at 1e-8 (f64) / 2e-3 (f32) relative to max|A^{-1}B|, CG cells by the mean relative "
+        "floating point is not modelled: direct paths are compared at 1e-11 (f64; 1e-9 for the kappa~1e5 singular-factor instances) / 2e-3 (f32, incl. float64 data on an eigen path under a float32 symeig linalg dtype) relative to max|A^{-1}B|, CG cells by the mean relative "
         "residual <= 3*max(cg_tolerance, 1e-5), Lanczos-root cells (SumKronecker / Kronecker+Kronecker-const-diag above max_cholesky_size) at 1e-4",
         "cholesky_ex / eigh / solve_triangular / cholesky_solve meet their contracts (hypotheses of the theorems); CG's contract is C08",
         "condition numbers of the catalogue are <= ~1e3",
@@ -650,7 +731,12 @@ def run(chk, only=None):
                     for cfgname, cfg in configs_for(N, quick):
                         if dtype == F32 and cfgname not in ("default", "mc0|tol1e-6", "mc0|fastoff"):
                             continue
-                        if "ldt32" in cfgname and ("singular" in x.tags or not (x.name.startswith("KroneckerAddedDiag") or x.name in ("Dense[psd]", "SumKronecker"))):
+                        if "ldt=" in cfgname and not (x.name.startswith("KroneckerAddedDiag") or x.name.startswith("SumKronecker")
+                                                       or x.name in ("Dense[psd]", "Kronecker", "AddedDiag")):
+                            continue
+                        if "ldt=s32" in cfgname and "singular" in x.tags:
+                            continue  # kappa ~ 1e5: a float32 eigendecomposition is not expected to resolve the noise level
+                        if "kronfactor" in x.tags and cfgname not in KRONFACTOR_CFGS:
                             continue
                         if "no-lanczos" in x.tags and cfg.get("fast", True) and cfg.get("mc", defaults["mc"]) < max(2, n):
                             continue  # factors above max_cholesky_size would be diagonalised / rooted by Lanczos (toleranced path)
